@@ -11,6 +11,8 @@
                                     addrs = a.b.c or '-'; keys = positions joined by '|', each k.k or 'e'; '-' = none
      queryp <addrs> <keys> <from> <to> <chunk> <limit> <tokblock> <tokcount> <block> ...
                                     same with pre-confirmed blocks (oldest first) above the head
+     rpcq <addrs> <keys> <from id> <to id> <chunk> <limit> <tokblock> <tokcount> <block> ...
+                                    starknet_getEvents: block ids resolved as rpc/v*/events.go does; reply page | err | notfound
      specp <addrs> <keys> <from> <to> <block> ...      filter_spec over chain ++ pre-confirmed blocks
      spec <addrs> <keys> <from> <to>
      light <n>                      n blocks without transactions (err if any store fails)
@@ -55,6 +57,18 @@ let parse_keys s =
   if s = "-" then [] else
   List.map (fun p -> if p = "e" then [] else List.map num (split_on '.' p)) (String.split_on_char '|' s)
 let parse_filter a k : efilter = { f_addrs = parse_addrs a; f_keys = parse_keys k }
+
+(* block ids of starknet_getEvents: - (absent) | latest | pre | n:<number> | r:<number> (hash or l1_accepted
+   resolved by the harness) | r:x (hash / l1 head unknown) *)
+let parse_bid (s : string) : bid =
+  match s with
+  | "-" -> BAbsent | "latest" -> BLatest | "pre" -> BPreConfirmed
+  | _ ->
+    (match String.split_on_char ':' s with
+     | ["n"; x] -> BNumber (num x)
+     | ["r"; "x"] -> BResolved None
+     | ["r"; x] -> BResolved (Some (num x))
+     | _ -> failwith ("bid " ^ s))
 
 let show_evs (l : fev list) : string =
   if l = [] then "-" else
@@ -112,6 +126,11 @@ let () =
           let (s', r) = do_query_pre !w_size member !st (parse_filter a k) (num f) (num t) (num chunk)
                           (num limit) (num tb, num tc) (List.map parse_block pre) in
           st := s'; show_out r
+      | "rpcq" :: a :: k :: fb :: tb :: chunk :: limit :: tkb :: tkc :: pre ->
+          let (s', r) = do_rpc_events !w_size member !st (parse_filter a k) (parse_bid fb) (parse_bid tb)
+                          (num chunk) (num limit) (num tkb, num tkc) (List.map parse_block pre) in
+          st := s';
+          (match r with None -> "notfound" | Some o -> show_out o)
       | "specp" :: a :: k :: f :: t :: pre ->
           "spec " ^ show_evs (filter_spec (!st.chain @ List.map parse_block pre) (parse_filter a k) (num f) (num t))
       | ["spec"; a; k; f; t] ->
